@@ -97,7 +97,9 @@ def build_frames(tb):
         off = off + pd.Timedelta(nanoseconds=tb["x_offset_ns"])     # ... by less than a microsecond (nanosecond-resolution index)
     X = pd.DataFrame(tb["X"], index=[dates[j] + off for j in tb["x_rows"]], columns=tb["xcols"], dtype=float)
     Y = pd.DataFrame(tb["Y"], index=dates, columns=tb["ycols"], dtype=float)
-    rate = pd.Series(tb["rate"], index=dates, name="r", dtype=float) if tb.get("rate") is not None else None
+    # (rate_index: the reference rate is published on dates of its own - first of the month, calendar days - not on the price dates)
+    ridx = [pd.Timestamp(d) for d in tb["rate_index"]] if tb.get("rate_index") else dates
+    rate = pd.Series(tb["rate"], index=ridx, name="r", dtype=float) if tb.get("rate") is not None else None
     return X, Y, rate
 
 
